@@ -76,6 +76,32 @@ for _p, _req in (("C12", ["retained_closed_form", "reopen_latest_content", "comm
         "trusted": ["tendermint/iavl, tm-db, tendermint/crypto/merkle"],
     }
 
+CHAIN_T1 = [{"family": "chain", "model": "chain", "quick_n": 5000, "thorough_n": 300000, "corpus": "chain",
+             "reset_token": "init", "group_token": "begin"}]
+CHAIN_RULE = ("block histories on the real BaseApp (auth + pos + gov over IAVL/MemDB) driven through InitChain / BeginBlock / DeliverTx / "
+              "CheckTx / Simulate / EndBlock / Commit with really signed transactions: state-aware generator (stake, begin-unstake, unjail, "
+              "send, change-param, DAO transfer/burn, upgrade; right/wrong signing key, key in signature or looked up, post-signing "
+              "mutations, fees around the requirement, amounts around minimum stake and balance), votes from a Tendermint stand-in that "
+              "applies the returned validator updates with the real delay, double-sign evidence of every age, queued awards and burns, "
+              "block-time steps around jail duration / unstaking time; the whole decoded state is compared with the Lean model after "
+              "every operation; non-trivial = distinct (operation kind, mutation, outcome) with a distinct operation text")
+CHAIN_ASSUME = ["signatures are ideal (a signature verifies iff made by the verification key over exactly the checked bytes): cryptographic strength of ed25519 is assumed",
+                "the tx-index lookup of the ante handler answers 'not found' (closed RPC port) unless a check says otherwise",
+                "single fee/stake denomination (upokt); multi-denomination Coins algebra is C18",
+                "Tendermint reports votes only for validators it holds; hostile consensus input (unknown validators, evidence against tombstoned ones) halts BeginBlock by design of the code and is modelled as a halt"]
+CHAIN_TRUSTED = ["go-amino, tendermint/iavl, tm-db (state is decoded with the repo's own codec by the harness)"]
+
+def _chain(pid, req, t3=None):
+    PROPS[pid] = {"lean_modules": ["Posmint.Props." + pid], "namespaces": ["Posmint.Props." + pid],
+                  "required_theorems": ["Posmint.Props.%s.%s" % (pid, t) for t in req],
+                  "t1": CHAIN_T1, "rule": CHAIN_RULE, "assumptions": CHAIN_ASSUME, "trusted": CHAIN_TRUSTED}
+    if t3:
+        PROPS[pid]["t3"] = t3
+
+_chain("C03", ["ante_accept_sound", "wrong_key_rejected", "mutation_rejected", "low_fee_rejected", "fee_from_signer"])
+_chain("C11", ["reject_frame", "readonly_frame", "undecodable_frame", "accept_shape"])
+_chain("C17", ["param_change_authorised", "change_only_that_key", "dao_authorised", "gov_unauthorised_rejected", "block_ops_keep_gov"])
+
 # development-only entry: the chain family with all monitors, no Lean module (not in MANIFEST)
 PROPS["XCHAIN"] = {
     "lean_modules": [], "namespaces": [],
@@ -86,6 +112,24 @@ PROPS["XCHAIN"] = {
 NOT_APPLICABLE = {}
 
 MANIFEST_TEXT = {
+    "C03": {"text": "Lean theorems over the ante/runTx model with ideal signatures: an accepted transaction was signed by the key of the signer the "
+                    "message declares (key supplied or looked up), no signed field was changed after signing, pays at least the required fee from the "
+                    "signer's own balance into the collector; a wrong key, any post-signing mutation or a low fee is rejected without state change. "
+                    "Tied by differential runs with really signed ed25519 transactions through DeliverTx/CheckTx. Partial: cryptographic strength "
+                    "assumed; replay rejection (tx index over RPC) and nested multisignatures are checked by the harness monitors only.",
+            "note": "ideal signature assumption; tx-index lookup is an external service", "technique": "Lean 4 proof over executable model + differential correspondence"},
+    "C11": {"text": "Lean theorems over the runTx model (decode, basic validation, ante on a cache written only on success in deliver mode, handler on "
+                    "a cache written only on success): a rejected delivered transaction leaves the state unchanged or unchanged-plus-fee; undecodable "
+                    "bytes change nothing; CheckTx and Simulate never change state; later transactions are unaffected. Tied by differential runs that "
+                    "compare the entire decoded state after every transaction (valid, failing each precondition, truncated/garbage bytes).",
+            "note": "model tied by T1 on the whole state; the baseapp defect found here (handler not isolated) is fixed and recorded",
+            "technique": "Lean 4 proof over executable model + differential correspondence"},
+    "C17": {"text": "Lean theorems: any change of a parameter, the ACL or the DAO owner comes from a delivered, accepted change-parameter message whose "
+                    "sender is the ACL owner of that key and alters that key alone; block-level operations change none; DAO funds leave only by a DAO "
+                    "message from the DAO owner, by exactly the amount, within the balance; all other governance messages are rejected. Tied by "
+                    "differential runs with owners, strangers, malformed values and owner hand-overs.",
+            "note": "typed decoding of parameter values is modelled for the tracked keys; other keys are exercised by T1 only",
+            "technique": "Lean 4 proof over executable model + differential correspondence"},
     "C12": {"text": "Lean theorems over the multistore model: Commit advances the version by one; reopening yields the committed content; for every "
                     "history, store count and (keepRecent, keepEvery) a version is loadable iff the closed form v = L or v >= L - keepRecent or keepEvery | v "
                     "holds and then shows exactly what was committed at v, otherwise an error; transient stores are empty after commit. Tied to "
